@@ -99,7 +99,7 @@ def run_case(case):
             sig = "C02/%s" % ("not-valid" if notin else "returned-more-often-than-allowed")
             if notin and k0[0] != "MISSING-FACTOR":
                 bad = refsem.valid(m, dict(zip(m.design, [list(x) for x in k0])))
-                sig += "/" + (common.clause_kind(bad[0]) if bad else "?")
+                sig += "/" + (common.invalid_tail(m, bad) if bad else "?")
             base.update(outcome="violation", signature=sig,
                         detail="policy %s: %d returned, |V|=%d (distinct %d); e.g. %s x%d (allowed %d) ; design=%s" % (
                             [case["knobs"]["peer"], case["peer2"]][pi], n, total, len(V), json.dumps(refsem.key_to_named(m, k0) if k0[0] != "MISSING-FACTOR" else str(k0)), L[k0], V.get(k0, 0), dast.describe(ast)))
